@@ -84,11 +84,16 @@ func (un *UserNode) validPourRequest(t *transaction.Transaction, balances c_stat
 	if err != nil {
 		return false, common.NewError("invalid_request", fmt.Sprintf("getting faucet balance resulted in an error: %v", err.Error()))
 	}
-	if gn.PourAmount > smartContractBalance {
+	// the limits apply to the amount pour() is going to transfer
+	pourAmount := gn.PourAmount
+	if t.Value > 0 && t.Value < gn.MaxPourAmount {
+		pourAmount = t.Value
+	}
+	if pourAmount > smartContractBalance {
 		return false, common.NewError("invalid_request", fmt.Sprintf("amount asked to be poured (%v) exceeds contract's wallet ballance (%v)", t.Value, smartContractBalance))
 	}
 
-	totalAmount, err := currency.AddCoin(gn.PourAmount, un.Used)
+	totalAmount, err := currency.AddCoin(pourAmount, un.Used)
 	if err != nil {
 		return false, common.NewError("invalid_request", fmt.Sprintf("amount asked to be poured (%v) plus previous amount (%v) is not a valid currency. error: %v", gn.PourAmount, un.Used, err))
 	}
@@ -98,7 +103,7 @@ func (un *UserNode) validPourRequest(t *transaction.Transaction, balances c_stat
 				t.Value, un.Used, gn.PeriodicLimit, gn.IndividualReset.String()))
 	}
 
-	totalGAmount, err := currency.AddCoin(gn.PourAmount, gn.Used)
+	totalGAmount, err := currency.AddCoin(pourAmount, gn.Used)
 	if err != nil {
 		return false, common.NewError("invalid_request", fmt.Sprintf("amount asked to be poured (%v) plus global used amount (%v) is not a valid currency. error: %v", gn.PourAmount, gn.Used, err))
 	}
